@@ -288,7 +288,12 @@ func checkDBModifiedWriters(c *core.Ctx, clause string) {
 				return
 			}
 			if an.MentionsField(call.Common().Args[0], "Store", "dbModifiedTime") {
-				writers[core.FuncName(an.TopFunc(fn))] = true
+				// an unexported helper called only by a reviewed writer is that writer's code
+				for _, n := range accountable(c, fn, func(n string) bool {
+					return n == "(*store.Store).fsmRestore" || n == "(*store.Store).fsmSnapshot"
+				}) {
+					writers[n] = true
+				}
 			}
 		})
 	}
